@@ -1808,7 +1808,12 @@ func checkNoPanicHot(c *Ctx, r *Report, ro *Roles, rule string) {
 		eachInstr(f, func(in ssa.Instruction) {
 			switch x := in.(type) {
 			case *ssa.Panic:
-				// a panic instruction with a non-constant operand or string constant written by the programmer
+				// the SSA builder ends a blocking select with an unreachable panic of its own
+				if mi, ok := x.X.(*ssa.MakeInterface); ok {
+					if k, ok := constString(mi.X); ok && strings.HasPrefix(k, "blocking select matched no case") {
+						return
+					}
+				}
 				n++
 				r.Fail(rule+":"+fname(f), c.instrPos(in), "explicit panic on the log call path")
 			case ssa.CallInstruction:
